@@ -13,6 +13,7 @@ Record case := mkCase {
   c_full : list (expr * option expr);            (* expression, full_expression (None = ValueError) *)
   c_reassign : list (id * expr * list stmt);     (* symbol, new rhs, resulting statements *)
   c_rsd : list (list id * nat * list nat);       (* symbols, statement index, indices removed *)
+  c_subs : list (list (id * expr) * list stmt);  (* substitution map, resulting statements *)
   c_envs : list (list (id * Q))
 }.
 
@@ -107,8 +108,24 @@ Definition check_rsd (c : case) : list nat :=
                                            (diffp (all_defs l') (dirty_after l removed))) (envs_of c))) 15 ++
     tag (g_remove_safe l removed) 16) (c_rsd c).
 
+Definition check_subs (c : case) : list nat :=
+  let l := c_stmts c in
+  flat_map (fun p =>
+    let '(m, r) := p in
+    tag3 (stmts_agree 2 (envs_of c) (subs_stmts m l) r) 6 1006 ++
+    (* the property on the implementation's answer, under the guard *)
+    (if g_subs_leaf m l
+     then tag (forallb (fun rho =>
+                 forallb (fun x => match alookup m x with
+                                   | Some _ => true
+                                   | None => match cmp_oq (exec std_fi std_ode rho r x)
+                                                          (exec std_fi std_ode (upd_map rho std_fi m) l x) with
+                                             | 1 => false | _ => true end
+                                   end) (all_defs l)) (envs_of c)) 17
+     else [203])) (c_subs c).
+
 Definition guard_tags (c : case) : list nat :=
   tag (g_def_before_use (c_stmts c)) 201 ++ tag (g_ssa (c_stmts c)) 202.
 
 Definition verdict (c : case) : list nat :=
-  check_find c ++ check_deps c ++ check_full c ++ check_reassign c ++ check_rsd c ++ guard_tags c.
+  check_find c ++ check_deps c ++ check_full c ++ check_reassign c ++ check_rsd c ++ check_subs c ++ guard_tags c.
